@@ -398,8 +398,12 @@ def _infer(prog, order, perms, mode, built, freg, buf):
     from dagrt.language import DAGCode, ExecutionPhase
     try:
         with redirect_stdout(buf):
-            if mode == "finder":
+            if mode in ("finder", "finder-iter"):
                 lists = [[built[pn][i] for i in perms[pn]] for pn in order]
+                if mode == "finder-iter":
+                    # "a list of iterables, each yielding the statements in a phase": one-shot generators, as the
+                    # Fortran generator hands over
+                    lists = [(st for st in l) for l in lists]
                 tbl = SymbolKindFinder(freg)(list(order), lists)
             else:
                 cont = {"list": list, "tuple": tuple, "frozenset": frozenset}[mode]
@@ -489,7 +493,8 @@ def check_program(prog, rec, rng, nperm, conflict, mon=None):
                 if j == 3:
                     for pn in order0:
                         perms[pn] = perms[pn][::-1]
-                mode = "finder" if j % 3 else rng.choice(["list", "tuple", "frozenset"])
+                mode = (("finder" if j % 2 else "finder-iter") if j % 3
+                        else rng.choice(["list", "tuple", "frozenset"]))
                 results.append((f"{mode}/perm{j}", infer(prog, order, perms, mode),
                                 {"order": order, "perms": perms, "mode": mode}))
     except CaseTimeout:
